@@ -121,6 +121,16 @@ func class(line, obs string) string {
 	if sch == "env" {
 		sch = "env:" + s.DEK + ":" + s.KEK.Scheme
 	}
+	if sch == "ks" {
+		sch = "ks"
+		for i, e := range s.Keys {
+			st := "d"
+			if s.Enabled[i] {
+				st = "e"
+			}
+			sch += ":" + e.Scheme + e.Variant + st
+		}
+	}
 	return fmt.Sprintf("%s/%s/%s/%s/%s", sch, s.Route, s.Variant, k, c01.LenClass(len(c)))
 }
 
@@ -180,6 +190,15 @@ func mutations(r *hx.Rng, s *c01.Spec, c0, ad0 []byte, exhaustive bool, k int) [
 		}
 		for b := 0; b < 8*len(ad0); b++ {
 			add("ad.flip", c0, flip(ad0, b))
+		}
+	}
+	// the whole tag must be compared: one flip in the last four bytes, one anywhere in the tag,
+	// one in the first byte after the prefix (the IV), for every base
+	if n := len(c0); n >= s.TagLen() && s.TagLen() >= 4 {
+		add("flip.tagend", flip(c0, 8*(n-4)+r.Intn(32)), ad0)
+		add("flip.tag", flip(c0, 8*(n-s.TagLen())+r.Intn(8*s.TagLen())), ad0)
+		if n > pl {
+			add("flip.iv", flip(c0, 8*pl+r.Intn(8)), ad0)
 		}
 	}
 	for i := 0; i < k; i++ {
@@ -284,10 +303,37 @@ func gen(r *hx.Rng, n int, tier string) []string {
 			out = append(out, line(s, fmt.Sprintf("huge.%d", (1<<38)-48+s.IVLen()+len(s.Prefix())+1+r.Intn(1<<20)), nil, nil, nil))
 		}
 	}
+	// keyset level (aead.New over several keys, prefix map + RAW fallback): ciphertexts of
+	// every key of the keyset, mutated prefixes, ciphertexts of disabled keys
+	nks := n / 40
+	for i := 0; i < nks; i++ {
+		ks := c01.RandKeyset(r)
+		for j, k := range ks.Keys {
+			pt := r.Bytes(c01.PickLen(r, 80))
+			ad := r.Bytes(c01.PickLen(r, 20))
+			c0 := validCiphertext(k, r.Bytes(k.IVLen()), pt, ad)
+			if !ks.Enabled[j] {
+				out = append(out, line(ks, "disabled", c0, ad, nil))
+				continue
+			}
+			out = append(out, line(ks, "valid", c0, ad, pt))
+			for _, m := range mutations(r, k, c0, ad, false, 2) {
+				out = append(out, line(ks, m.kind, m.c, m.ad, nil))
+			}
+			// the body of one key behind the prefix of another
+			o := ks.Keys[r.Intn(len(ks.Keys))]
+			if !bytes.Equal(o.Prefix(), k.Prefix()) {
+				out = append(out, line(ks, "pfx.swap", append(clone(o.Prefix()), c0[len(k.Prefix()):]...), ad, nil))
+			}
+		}
+		out = append(out, line(ks, "rand", r.Bytes(r.Intn(40)), nil, nil))
+	}
+	// a few bases per run get EVERY single-bit flip and EVERY cut point (schemes in rotation)
 	exhaustiveLeft := 3
 	if tier != "quick" {
-		exhaustiveLeft = 40
+		exhaustiveLeft = 60
 	}
+	rot := r.Intn(len(c01.Schemes))
 	for len(out) < n {
 		s := c01.RandSpec(r)
 		pt := r.Bytes(c01.PickLen(r, 200))
@@ -296,7 +342,10 @@ func gen(r *hx.Rng, n int, tier string) []string {
 			ad = r.Bytes(c01.PickLen(r, 64))
 		}
 		exhaustive := false
-		if exhaustiveLeft > 0 && s.Scheme != "env" && r.Chance(8) {
+		if exhaustiveLeft > 0 {
+			for s.Scheme != c01.Schemes[(rot+exhaustiveLeft)%len(c01.Schemes)] {
+				s = c01.RandSpec(r)
+			}
 			exhaustive = true
 			exhaustiveLeft--
 			pt = r.Bytes(r.Intn(4))
@@ -310,8 +359,19 @@ func gen(r *hx.Rng, n int, tier string) []string {
 		if len(ad) == 0 {
 			out = append(out, line(s, "adnil", c0, ad, pt))
 		}
-		for _, m := range mutations(r, s, c0, ad, exhaustive, 6) {
+		for _, m := range mutations(r, s, c0, ad, exhaustive, 4) {
 			out = append(out, line(s, m.kind, m.c, m.ad, nil))
+		}
+		// every length below and just above the minimum: cuts of the valid ciphertext and
+		// arbitrary bytes behind the right prefix
+		if s.Scheme != "env" && r.Chance(12) {
+			lim := len(s.Prefix()) + s.IVLen() + s.TagLen() + 1
+			for n := 0; n <= lim && n < len(c0); n++ {
+				out = append(out, line(s, "cut."+strconv.Itoa(n), clone(c0[:n]), ad, nil))
+			}
+			for n := 0; n <= lim-len(s.Prefix()); n++ {
+				out = append(out, line(s, "rand", append(clone(s.Prefix()), r.Bytes(n)...), ad, nil))
+			}
 		}
 		// another key, same prefix
 		if r.Chance(30) {
@@ -342,6 +402,24 @@ func gen(r *hx.Rng, n int, tier string) []string {
 			}
 			if r.Chance(30) {
 				out = append(out, line(s, "hdr.short", clone(c0[:r.Intn(5)]), ad, nil))
+			}
+			// cuts around the end of the encrypted DEK, and headers claiming exactly / slightly
+			// more than what follows (the bound is len(ciphertext)-4)
+			l := int(c0[2])<<8 | int(c0[3])
+			if r.Chance(50) {
+				for _, n := range []int{l, l + 1, l + 2, l + 3, l + 4, l + 5} {
+					if n < len(c0) && r.Chance(60) {
+						out = append(out, line(s, "cut."+strconv.Itoa(n), clone(c0[:n]), ad, nil))
+					}
+				}
+				short := clone(c0[:min(len(c0), 4+l+r.Intn(3))])
+				for d := -1; d <= 5; d++ {
+					if v := len(short) - 4 + d; v > 0 && v < 65536 && r.Chance(60) {
+						x := clone(short)
+						x[2], x[3] = byte(v>>8), byte(v)
+						out = append(out, line(s, "hdr.claim", x, ad, nil))
+					}
+				}
 			}
 		}
 	}
